@@ -114,13 +114,13 @@ func runC05(c *Ctx) {
 	// the case routine is Decode's (decided under C04); Encode must pass *that* routine on hrp, directly or inside a
 	// validation helper whose successful exits all passed it
 	var caseFn *ssa.Function
-	caseUniq := false
+	caseUniq, caseIdx := false, false
 	if dec := c.P.Func("pkg/bech32", "Decode"); dec != nil {
-		caseFn, caseUniq = uniqueCallee(edgesMatching(ana.NewBuilder(c.P, dec), "bin<==>(call<*>(p0), nil)"))
+		caseFn, caseUniq, caseIdx = caseGate(c, ana.NewBuilder(c.P, dec))
 	}
 	var accCase []ana.Edge
 	if caseFn != nil {
-		accCase = plainEdges(edgesMatching(b, "bin<==>(call<"+caseFn.String()+">(p0), nil)"))
+		accCase = plainEdges(edgesMatching(b, caseAccept(caseFn.String(), caseIdx)...))
 	}
 	// the HRP loop in Encode, or in a first-violation scanner Encode tests against "none found"
 	hrpGate := scanGates(c, b, func(b2 *ana.Builder, l *rangeLoop) bool {
@@ -136,8 +136,9 @@ func runC05(c *Ctx) {
 		}
 		return false
 	})
-	rejects := c.rejectEdges(b, "bin<<>(len(p0), 1)", "bin<<=>(len(p0), 0)",
-		"un<!>(call<*>(ext#2(next(range(p0)))))", "un<!>(call<*>(index(p0, ind<+1>(0))))", "bin<!=>(call<*>(p0), nil)")
+	rejPats := append([]string{"bin<<>(len(p0), 1)", "bin<<=>(len(p0), 0)",
+		"un<!>(call<*>(ext#2(next(range(p0)))))", "un<!>(call<*>(index(p0, ind<+1>(0))))"}, caseReject("*", caseIdx)...)
+	rejects := c.rejectEdges(b, rejPats...)
 	rejects = append(rejects, rejLen...)
 	avoid := ana.ReachableAvoiding(fn, rejects)
 	for _, e := range errs {
